@@ -407,13 +407,15 @@ pub fn valid_dso_strategy() -> impl Strategy<Value = DsoCase> {
             0..13,
         ),
         prop_oneof![3 => Just(0u8), 1 => 1u8..=255],
+        // non-PIE style: the PT_LOAD segment of file offset 0 has a non-zero virtual address
+        prop_oneof![2 => Just(LoadVaddr::Zero), 1 => (1u16..100).prop_map(LoadVaddr::Small)],
     )
-        .prop_map(|(extra_phdrs, has_load, extra_dyns, dyn_null, (r_version, r_brk, r_state, r_ldbase), chain, fill)| DsoCase {
+        .prop_map(|(extra_phdrs, has_load, extra_dyns, dyn_null, (r_version, r_brk, r_state, r_ldbase), chain, fill, load_vaddr)| DsoCase {
             phnum: Phnum::True,
             phdr_at: Place::Normal,
             extra_phdrs,
             has_load,
-            load_vaddr: LoadVaddr::Zero,
+            load_vaddr,
             has_dynamic: true,
             dyn_at: Place::Normal,
             extra_dyns,
